@@ -94,6 +94,11 @@ type c13M struct {
 	events   []c13V
 	steps    int
 	depth    int
+	// forking on conditions the evaluator cannot compute (see c13Env.run)
+	forced       []bool   // decisions replayed on this path
+	taken        []bool   // decisions made so far on this path
+	pending      [][]bool // sibling paths discovered on this path
+	firstUnknown string
 }
 
 func newC13M(c *Ctx, follow ...string) *c13M {
@@ -959,10 +964,31 @@ func (m *c13M) block(fr *c13Frame, list []ast.Stmt) int {
 
 func (m *c13M) cond(fr *c13Frame, e ast.Expr) bool {
 	v := m.eval(fr, e)
-	if v.k != c13Bool {
-		m.abort("branch on a value the evaluator cannot compute: %s at %s (%s)", types.ExprString(e), m.c.P.Pos(e.Pos()), v.why)
+	if v.k == c13Bool {
+		return v.b
 	}
-	return v.b
+	return m.choose(fmt.Sprintf("%s at %s (%s)", types.ExprString(e), m.c.P.Pos(e.Pos()), v.why))
+}
+
+// choose is the fork primitive: a decision the evaluator cannot compute. Decisions are
+// replayed in order on re-evaluation (the evaluator is deterministic); a new decision takes
+// the true arm and queues the sibling path.
+func (m *c13M) choose(desc string) bool {
+	idx := len(m.taken)
+	if idx < len(m.forced) {
+		m.taken = append(m.taken, m.forced[idx])
+		return m.forced[idx]
+	}
+	if m.firstUnknown == "" {
+		m.firstUnknown = desc
+	}
+	if len(m.taken) >= 24 {
+		m.abort("more than 24 nested conditions the evaluator cannot compute (first: %s)", m.firstUnknown)
+	}
+	sib := append(append([]bool{}, m.taken...), false)
+	m.pending = append(m.pending, sib)
+	m.taken = append(m.taken, true)
+	return true
 }
 
 func (m *c13M) stmt(fr *c13Frame, s ast.Stmt) int {
@@ -1102,11 +1128,10 @@ func (m *c13M) switchStmt(fr *c13Frame, s *ast.SwitchStmt) int {
 		m.stmt(fr, s.Init)
 	}
 	var tag c13V
+	tagUnknown := false
 	if s.Tag != nil {
 		tag = m.eval(fr, s.Tag)
-		if tag.k == c13Unk {
-			m.abort("switch on a value the evaluator cannot compute: %s at %s (%s)", types.ExprString(s.Tag), m.c.P.Pos(s.Pos()), tag.why)
-		}
+		tagUnknown = tag.k == c13Unk
 	}
 	var chosen *ast.CaseClause
 	var def *ast.CaseClause
@@ -1115,6 +1140,14 @@ outer:
 		cc := cl.(*ast.CaseClause)
 		if cc.List == nil {
 			def = cc
+			continue
+		}
+		if tagUnknown {
+			// the tag is not computable: fork over the clauses (one decision per clause)
+			if m.choose(fmt.Sprintf("switch %s at %s (%s)", types.ExprString(s.Tag), m.c.P.Pos(s.Pos()), tag.why)) {
+				chosen = cc
+				break outer
+			}
 			continue
 		}
 		for _, ce := range cc.List {
@@ -1128,7 +1161,7 @@ outer:
 			v := m.eval(fr, ce)
 			eq, known := m.eq(tag, v)
 			if !known {
-				m.abort("case %s not comparable at %s", types.ExprString(ce), m.c.P.Pos(ce.Pos()))
+				eq = m.choose(fmt.Sprintf("case %s at %s", types.ExprString(ce), m.c.P.Pos(ce.Pos())))
 			}
 			if eq {
 				chosen = cc
